@@ -1,4 +1,5 @@
 import ALock.Lemmas.Mutex
+import ALock.Atomic.Calls
 
 /-!
 # C05 — Mutex: no lost wake-up: a free mutex never leaves a waiter asleep
@@ -97,3 +98,14 @@ example :
     s.c.woken = [2] ∧ s.c.st = 0 := by decide
 
 end ALock.Mutex
+
+/-! ## Where the notifications are sent (generated site table) -/
+
+namespace ALock.Atomic.Calls
+
+/-- every operation of `src/mutex.rs` on the state word and every `listen` / `notify` on `lock_ops`,
+function by function in source order, is what the model's `lockPoll` / `unlock` / `lockDrop` were
+written against (table extracted from /repo's sources on every run) -/
+theorem C05_calls_ok : fileShapes "src/mutex.rs" = mutexExpected := by decide
+
+end ALock.Atomic.Calls
